@@ -257,3 +257,6 @@ Fixpoint merge_roots (sch : schema) (mdflt : bool) (srcs : list dd) (ts : list d
 (* lyd_diff_merge_all(&diff, src_diff, options) *)
 Definition merge (sch : schema) (mdflt : bool) (diff src : list dd) : res (list dd) :=
   merge_roots sch mdflt src diff.
+
+(* hypothesis of the merge theorems: the schema holds no user-ordered (leaf-)list (the fragment) *)
+Definition schema_nouo (sch : schema) : bool := forallb (fun e : sid * sinfo => negb (userordered sch (fst e))) sch.
